@@ -42,8 +42,53 @@ def tweak(rng, sc):
     return sc
 
 
+def run_template_shapes(ctx, depth):
+    """Monitor-only family: shapes of spec.template / spec.selector that the CRD admits but that the model does not
+    represent (template without labels, empty label map, selector that matches nothing).  Two reconciles of the real
+    controller under recover; the only clause checked is the property's: no panic."""
+    from props import gen
+    rng = ctx.rng
+    n = 80 if depth == "quick" else 2500
+    scs = []
+    while len(scs) < n:
+        sc = gen.gen_rollout(rng) if len(scs) % 2 else gen.gen_snapshot(rng)
+        sc = tweak(rng, sc)
+        shape = rng.choice(["none", "none", "empty"])
+        for w in (sc["api"], sc["cache"]):
+            if w.get("set"):
+                w["set"]["tmpl_labels"] = shape
+        if rng.random() < 0.5:
+            sc["api"]["revs"], sc["cache"]["revs"] = [], []
+        sc["ops"] = [{"op": "reconcile"}, {"op": "refresh", "what": "all"}, {"op": "reconcile"}]
+        scs.append(sc)
+    outs = core.run_harness_parallel("reconcile", scs, shards=16)
+    panics = 0
+    for sc, out in zip(scs, outs):
+        ctx.evaluations += 1
+        ctx.count("family:template-shape")
+        if "harness_error" in out:
+            # the harness builds its revision-hash table with the controller's own constructor (newRevision)
+            if "panic" in out["harness_error"]:
+                panics += 1
+                ctx.violations.append({"family": "C15/template-shapes", "input": sc, "observed": out,
+                                       "clauses": ["the controller's revision constructor panicked: " + out["harness_error"]],
+                                       "signature": {"kind": "C15", "clause": "panic on an admitted template shape"}})
+            else:
+                raise core.BuildError("harness: " + out["harness_error"])
+            continue
+        for st in out["steps"]:
+            if isinstance(st, dict) and st.get("result") == "panic":
+                panics += 1
+                ctx.violations.append({"family": "C15/template-shapes", "input": sc, "observed": st,
+                                       "clauses": ["the controller panicked: " + st.get("msg", "")],
+                                       "signature": {"kind": "C15", "clause": "panic on an admitted template shape"}})
+                break
+    ctx.families["C15/template-shapes"] = {"scenarios": len(scs), "panics": panics, "tie": "monitor only (shapes outside the model)"}
+
+
 def run(ctx, depth):
     rc.run_reconcile_property(ctx, depth, "C15", PI, monitor, tweak=tweak, cmp_outcome=True)
+    run_template_shapes(ctx, depth)
 
 
 def search(ctx):
